@@ -85,7 +85,10 @@ func (p *parser) Parse(objDump string) ([]Syscall, error) {
 
 		// Find the start of a function.
 		if strings.HasPrefix(line, functionMarker) {
-			function = line[5:]
+			function = ""
+			if len(line) > len(functionMarker) {
+				function = line[len(functionMarker)+1:]
+			}
 			instructions = instructions[:0]
 			continue
 		}
@@ -113,8 +116,8 @@ func (p *parser) Parse(objDump string) ([]Syscall, error) {
 		syscalls = append(syscalls, *syscall)
 	}
 
-	if s.Err() != nil {
-		return nil, err
+	if err := s.Err(); err != nil {
+		return nil, fmt.Errorf("failed to read objdump file: %v", err)
 	}
 
 	return syscalls, nil
@@ -214,6 +217,9 @@ func parseX86_64(p *parser, line, caller string, instructions []string) (*Syscal
 		if inst := lastInstruction(instructions); inst != "" {
 			if strings.Contains(inst, "XORL AX, AX") {
 				fields := strings.Fields(line)
+				if len(fields) < 3 {
+					return nil, fmt.Errorf("unexpected format of instruction '%v'", strings.TrimSpace(line))
+				}
 				return &Syscall{
 					Location: fields[0],
 					Function: strings.Join(fields[3:], " "),
@@ -231,6 +237,9 @@ func parseX86_64(p *parser, line, caller string, instructions []string) (*Syscal
 	}
 
 	fields := strings.Fields(line)
+	if len(fields) < 3 {
+		return nil, fmt.Errorf("unexpected format of instruction '%v'", strings.TrimSpace(line))
+	}
 	s := &Syscall{
 		Location: fields[0],
 		Function: strings.Join(fields[3:], " "),
